@@ -48,4 +48,38 @@ def CryptoStream.finish (s : CryptoStream) : CryptoStream × Option CryptoErr :=
   if s.queue.hasMoreData then (s, some .protocolViolation)
   else ({ s with finished := true }, none)
 
+/-! ### the glue around the crypto stream: `Conn.handleFrames` / `Conn.handleCryptoFrame`, CRYPTO frames only -/
+
+/-- `for { data := GetCryptoData(); if data == nil { break }; HandleMessage(data) }`:
+the messages handed to the TLS stack; the Bool is "Pop panicked" -/
+def CryptoStream.drain : Nat → CryptoStream → CryptoStream × List Bytes × Bool
+  | 0, s => (s, [], false)
+  | fuel + 1, s =>
+    match s.getCryptoData with
+    | (s', none, pan) => (s', [], pan)
+    | (s', some d, _) =>
+      let r := CryptoStream.drain fuel s'
+      (r.1, d :: r.2.1, r.2.2)
+
+/-- `Conn.handleCryptoFrame`: HandleCryptoFrame, then drain -/
+def CryptoStream.handleAndDrain (s : CryptoStream) (offset : Nat) (data : Bytes) : CryptoStream × Option CryptoErr × List Bytes :=
+  let r := s.handleCryptoFrame offset data
+  match r.2 with
+  | some e => (r.1, some e, [])
+  | none =>
+    let d := CryptoStream.drain (r.1.queue.queue.length + 1) r.1
+    (d.1, if d.2.2 then some .panic else none, d.2.1)
+
+/-- the CRYPTO frames of one packet in packet order; the first error wins (the rest of the packet is
+not processed) → (stream, result per processed frame, messages handed to TLS) -/
+def CryptoStream.handlePacket (s : CryptoStream) : List (Nat × Bytes) → CryptoStream × List (Option CryptoErr) × List Bytes
+  | [] => (s, [], [])
+  | (off, data) :: rest =>
+    let r := s.handleAndDrain off data
+    match r.2.1 with
+    | some e => (r.1, [some e], r.2.2)
+    | none =>
+      let r' := CryptoStream.handlePacket r.1 rest
+      (r'.1, none :: r'.2.1, r.2.2 ++ r'.2.2)
+
 end Uquic.Model.Reassembly
